@@ -5,6 +5,7 @@ import (
 	"fmt"
 	"math"
 	"math/big"
+	"strings"
 	"testing"
 
 	"github.com/db47h/decimal"
@@ -28,6 +29,8 @@ type CtxStep struct {
 	F   uint64 `json:"f,omitempty"`
 	S   string `json:"s,omitempty"`
 	Nil int    `json:"nil,omitempty"` // poison: which operand is nil (1-based)
+	Exp int64  `json:"exp,omitempty"` // newfloat: binary exponent
+	Neg bool   `json:"neg,omitempty"` // newfloat: sign
 }
 
 type C19Case struct {
@@ -153,6 +156,23 @@ func (m *ctxMachine) do(s CtxStep) (out ctxOut) {
 		m.v[s.Z] = c.NewRat(ratOf(s.I, s.Den))
 	case "newfloat64":
 		m.v[s.Z] = c.NewFloat64(math.Float64frombits(s.F))
+	case "newfloat":
+		m.v[s.Z] = c.NewFloat(ctxBigFloat(s))
+	case "newfloat64nan":
+		// a NaN argument: NewFloat64 either panics with ErrNaN (an invalid argument, as SetFloat64 does) or records
+		// it; in neither case may an error recorded EARLIER be lost. Err() is called at once and returned.
+		func() {
+			defer func() {
+				if r := recover(); r != nil {
+					if _, ok := r.(decimal.ErrNaN); !ok {
+						panic(r)
+					}
+					out.ok = true // panicked with ErrNaN
+				}
+			}()
+			c.NewFloat64(math.NaN())
+		}()
+		out.err = c.Err()
 	case "newstring":
 		d, ok := c.NewString(s.S)
 		out.ok = ok
@@ -169,6 +189,17 @@ func (m *ctxMachine) do(s CtxStep) (out ctxOut) {
 		panic(h.BuildError{Msg: "ctx op " + s.Op})
 	}
 	return
+}
+
+// ctxBigFloat builds the big.Float argument of a newfloat step: F is the mantissa (top bit set), FP the precision,
+// P (reused) carries the binary exponent offset by 2000.
+func ctxBigFloat(s CtxStep) *big.Float {
+	f := new(big.Float).SetPrec(s.P).SetMode(big.ToZero).SetUint64(s.F | 1<<63)
+	f.SetMantExp(f, int(s.Exp))
+	if s.Neg {
+		f.Neg(f)
+	}
+	return f
 }
 
 func ctxPrecLimit() int {
@@ -284,7 +315,7 @@ func genC19(t *rapid.T) C19Case {
 			s.Op = "setmode"
 			s.M = h.GenMode(t, "m")
 		default:
-			s.Op = rapid.SampledFrom([]string{"new", "newint64", "newuint64", "newint", "newrat", "newfloat64", "newstring", "parsedecimal"}).Draw(t, "nop")
+			s.Op = rapid.SampledFrom([]string{"new", "newint64", "newuint64", "newint", "newrat", "newfloat64", "newfloat", "newfloat64nan", "newstring", "parsedecimal"}).Draw(t, "nop")
 			switch s.Op {
 			case "newint64":
 				s.I = big.NewInt(genInt64(t, "i")).String()
@@ -295,6 +326,20 @@ func genC19(t *rapid.T) C19Case {
 			case "newrat":
 				s.I = genBigIntString(t, "num", 40)
 				s.Den = rapid.SampledFrom([]string{"1", "3", "7", "8", "125", "999"}).Draw(t, "den")
+			case "newfloat":
+				s.F = rapid.Uint64().Draw(t, "bfm")
+				if rapid.Bool().Draw(t, "bfshort") {
+					s.F &^= 1<<uint(rapid.IntRange(0, 60).Draw(t, "bfz")) - 1 // few significant bits
+				}
+				s.P = uint(rapid.SampledFrom([]int{1, 2, 24, 52, 53, 54, 64, 64, 100}).Draw(t, "bfp"))
+				s.Neg = rapid.Bool().Draw(t, "bfneg")
+				s.Exp = int64(rapid.IntRange(-200, 200).Draw(t, "bfe"))
+				switch rapid.IntRange(0, 3).Draw(t, "bfecls") {
+				case 0:
+					s.Exp = int64(rapid.IntRange(-1140, -1000).Draw(t, "bfelow")) // around float64's denormal range
+				case 1:
+					s.Exp = int64(rapid.IntRange(1000, 1100).Draw(t, "bfehigh"))
+				}
 			case "newfloat64":
 				s.F = genFloat64Bits(t, "f")
 				if math.IsNaN(math.Float64frombits(s.F)) {
@@ -494,12 +539,57 @@ func checkC19(c C19Case, o *h.Obs) *h.Fail {
 			}
 		case s.Op == "setmode":
 			mode = s.M
+		case s.Op == "newfloat64nan":
+			o.Label("newfloat64-NaN")
+			if out.panic != nil {
+				return h.Failf("panic", "%s panicked: %v", where, out.panic)
+			}
+			for j := range m.v {
+				if after := h.Read(m.v[j]); !after.SameAll(before[j]) {
+					return h.Failf("touched", "%s modified v%d: %v -> %v", where, j, before[j], after)
+				}
+			}
+			switch {
+			case latched:
+				// the error recorded first must be the one Err() returns
+				var nan decimal.ErrNaN
+				if out.err == nil || !errors.As(out.err, &nan) {
+					return h.Failf("err", "%s: an ErrNaN was latched before NewFloat64(NaN); Err() right after it returns %v", where, out.err)
+				}
+				if strings.Contains(out.err.Error(), "SetFloat64") {
+					return h.Failf("first-error-lost", "%s: the error latched earlier was replaced by NewFloat64's own: %v", where, out.err)
+				}
+				latched = false
+			case out.ok:
+				// panicked with ErrNaN: nothing may have been latched
+				if out.err != nil {
+					return h.Failf("err", "%s: NewFloat64(NaN) panicked AND latched %v", where, out.err)
+				}
+			default:
+				// did not panic: then it must have recorded the ErrNaN
+				if out.err == nil {
+					return h.Failf("err", "%s: NewFloat64(NaN) neither panicked nor recorded an error", where)
+				}
+			}
 		default:
 			// constructors: rounded to the context
 			if out.panic != nil {
 				return h.Failf("panic", "%s panicked: %v", where, out.panic)
 			}
 			got := h.Read(m.v[s.Z])
+			if s.Op == "newfloat" || s.Op == "newfloat64" {
+				// differential: the constructor is SetFloat / SetFloat64 into a receiver carrying the context's
+				// precision and mode (what those do is C15's business)
+				ref := new(decimal.Decimal).SetMode(decimal.RoundingMode(mode)).SetPrec(prec)
+				if s.Op == "newfloat" {
+					ref.SetFloat(ctxBigFloat(s))
+				} else {
+					ref.SetFloat64(math.Float64frombits(s.F))
+				}
+				if r := h.Read(ref); !r.SameButWords(got) {
+					return h.Failf("value", "%s: the context's constructor gives %v, SetFloat into a receiver with the context's precision and mode gives %v", where, got, r)
+				}
+			}
 			var exact model.X
 			have := true
 			switch s.Op {
@@ -535,7 +625,7 @@ func checkC19(c C19Case, o *h.Obs) *h.Fail {
 	return nil
 }
 
-const ruleC19 = "rapid state machine: one Context (precision 0..120 (quick) / 600 (thorough), any mode) and four variables with their own precision and mode (finite, zeros, infinities; in one run of four all of them sit at the bottom or at the top end of the exponent range, with shared leading digits, so that differences underflow and sums overflow); steps drawn against the current state from Add/Sub/Mul/Quo/FMA/Sqrt/Neg/Abs/Set (receiver distinct from the operands in 3 of 4 draws, steered now and then to 0/0, Inf-Inf, 0*Inf, Inf/Inf, Sqrt(-x)), Err, SetPrec, SetMode, New/NewInt64/NewUint64/NewInt/NewRat/NewFloat64/NewString/ParseDecimal with valid arguments, and poison steps (a nil operand makes the wrapped operation panic with a runtime error; or, one time in three, an out-of-range rounding mode makes the rounding step of an inexact operation on scratch variables panic with a plain string). Model of the context (precision, mode, latched): not latched => result == reference operation rounded to the context's precision and mode and the receiver carries them (aliased receivers: operands first rounded to the context, as documented); NaN => no panic, receiver returned, error latched; latched => every operation returns its receiver and all variables are bit-identical; Err() returns an ErrNaN exactly once and re-arms; poison => the panic propagates and nothing is latched. Non-trivial = a run with a NaN step followed by at least two operations and an Err, or with a poison step."
+const ruleC19 = "rapid state machine: one Context (precision 0..120 (quick) / 600 (thorough), any mode) and four variables with their own precision and mode (finite, zeros, infinities; in one run of four all of them sit at the bottom or at the top end of the exponent range, with shared leading digits, so that differences underflow and sums overflow); steps drawn against the current state from Add/Sub/Mul/Quo/FMA/Sqrt/Neg/Abs/Set (receiver distinct from the operands in 3 of 4 draws, steered now and then to 0/0, Inf-Inf, 0*Inf, Inf/Inf, Sqrt(-x)), Err, SetPrec, SetMode, New/NewInt64/NewUint64/NewInt/NewRat/NewFloat64/NewFloat/NewString/ParseDecimal with valid arguments (NewFloat and NewFloat64 compared with SetFloat/SetFloat64 into a receiver carrying the context's attributes; big.Floats of 1..100 bits also around float64's denormal range), NewFloat64(NaN) (may panic with ErrNaN or record it, but an error recorded earlier must be the one Err() returns), and poison steps (a nil operand makes the wrapped operation panic with a runtime error; or, one time in three, an out-of-range rounding mode makes the rounding step of an inexact operation on scratch variables panic with a plain string). Model of the context (precision, mode, latched): not latched => result == reference operation rounded to the context's precision and mode and the receiver carries them (aliased receivers: operands first rounded to the context, as documented); NaN => no panic, receiver returned, error latched; latched => every operation returns its receiver and all variables are bit-identical; Err() returns an ErrNaN exactly once and re-arms; poison => the panic propagates and nothing is latched. Non-trivial = a run with a NaN step followed by at least two operations and an Err, or with a poison step."
 
 var propC19 = &h.Prop[C19Case]{ID: "C19", Rule: ruleC19, Gen: genC19, Check: checkC19, Matchers: map[string]func(C19Case) bool{}}
 
